@@ -54,7 +54,7 @@ unsigned ghost_k;
 void h_Box_DoesOverlap(void) { struct Box *a, *b; Box_DoesOverlap(a, b); }
 void h_Box_DoesOverlapPt(void) { struct Box *a; struct linalg_vec_double_3 p; Box_DoesOverlapPt(a, p); }
 void h_Box_Union(void) { struct Box *a, *b; Box_Union(a, b); }
-void h_SpreadBits3(void) { unsigned v; SpreadBits3(v); }
+void h_SpreadBits3(void) { unsigned v; ghost_k = nondet_uint(); /* arbitrary bit position */ SpreadBits3(v); }
 
 /* node numbering: "even nodes are leaves, odd nodes are internal, root is 1" */
 void h_node_algebra(void) {
